@@ -1,12 +1,14 @@
 package main
 
 import (
+	"github.com/cedar-policy/cedar-go/verifharness/c05"
 	"github.com/cedar-policy/cedar-go/verifharness/c14"
 	"github.com/cedar-policy/cedar-go/verifharness/c18"
 	"github.com/cedar-policy/cedar-go/verifharness/core"
 )
 
 func main() {
+	core.Register(c05.Prop{})
 	core.Register(c14.Prop{})
 	core.Register(c18.Prop{})
 	core.Main()
